@@ -251,23 +251,32 @@ fn gen(a: &Args) {
             otrack as u8,
             k
         ));
-        // Hash universe: a prefix-free set of decimal strings ("0", "1", and 19-digit numbers whose
-        // first digit is 2..9), so that different hash lists always have different md5 preimages —
-        // the unseparated-preimage ambiguity (known finding, corpus/C13/preimage.ops) cannot be hit
-        // by accident and `eq` is decided by the hashes alone.
+        // Hash universe: a prefix-free set of decimal strings — "0", 19-digit numbers whose first
+        // digit is 2..9, and 20-digit numbers (10^19 ..= u64::MAX, first digit 1) — so that
+        // different hash lists always have different md5 preimages: the unseparated-preimage
+        // ambiguity (known finding, corpus/C13/preimage.ops) cannot be hit by accident and `eq` is
+        // decided by the hashes alone.  Both digit lengths of large u64 values are exercised.
         let lo = 2_000_000_000_000_000_000u64;
         let hi = 9_999_999_999_999_999_999u64;
+        let big = 10_000_000_000_000_000_000u64;
+        let pick_hash = |r: &mut Rng| -> u64 {
+            match r.below(10) {
+                0..=6 => r.range(lo, hi),
+                7..=8 => r.range(big, u64::MAX),
+                _ => u64::MAX - r.below(3),
+            }
+        };
         let mut pool = [0u64; 8];
         for p in pool.iter_mut() {
-            *p = r.range(lo, hi);
+            *p = pick_hash(&mut r);
         }
         let nops = r.range(1, 30);
         for _ in 0..nops {
             let hash = |r: &mut Rng| -> u64 {
                 match r.below(20) {
-                    0..=2 => r.below(2),
-                    3..=15 => *r.pick(&pool),
-                    _ => r.range(lo, hi),
+                    0..=1 => 0,
+                    2..=15 => *r.pick(&pool),
+                    _ => pick_hash(r),
                 }
             };
             let abund = |r: &mut Rng| -> u64 {
